@@ -69,11 +69,13 @@ MUTANTS = [
     {"name": "marker_removed_before_flip", "props": ["C06"], "file": T,
      "find": "        # 5. Commit the snapshot - with the SAME id stamped into the manifests.",
      "repl": "        for _m in list(self._inflight_markers):\n            self.file_manager.storage.delete_file(_m)\n        self._inflight_markers = []\n        # 5. Commit the snapshot - with the SAME id stamped into the manifests."},
-    {"name": "marker_after_file", "props": ["C06"], "file": T,
+    {"name": "no_marker_for_written_data_files", "props": ["C06"], "file": T,
+     # (was "marker_after_file": since append_files() registers unregistered files, dropping only append_data's own
+     #  registration merely moves the marker after the write - harmless while the file is young; drop both)
      "find": "        self._register_inflight(file_path)\n\n        # Use the data file manager to write the data",
      "repl": "        # Use the data file manager to write the data",
-     "also": [("        # Track written file for cleanup on rollback\n        self._written_files.append(file_path)",
-               "        self._written_files.append(file_path)\n        pass")]},
+     "also": [("            if not self._has_inflight_marker(data_file.file_path):\n                self._register_inflight(data_file.file_path)",
+               "            pass")]},
     {"name": "gc_swallow_manifest_error", "props": ["C07"], "file": G,
      "find": "            except Exception as e:\n                raise GarbageCollectionAborted(\n                    f\"Aborting GC: cannot read reachable manifest {m_path}: {e}. \"\n                    f\"Nothing was deleted.\"\n                ) from e",
      "repl": "            except Exception as e:\n                continue"},
@@ -136,9 +138,10 @@ MUTANTS = [
      "repl": "        return max(remaining_ids)"},
     # (a mutant that merely skips the schema-argument comparison is EQUIVALENT since fix c6108cc: the persisted
     #  schema is used for validation and writing whatever the argument says)
-    {"name": "append_writes_with_argument_schema", "props": ["C11"], "file": T,
-     "find": "            if persisted is not None:\n                schema = persisted",
-     "repl": "            if persisted is not None:\n                pass"},
+    # ("append_writes_with_argument_schema" - write with the caller's equivalent-but-reordered schema - was retired: since the
+    #  Arrow-schema cache is keyed by content (ded9070) the footer check of append_files refuses such a file, and the commit-time
+    #  re-validation (989e126) would refuse it as well: the change no longer breaks any property. Its successor is
+    #  "schema_cache_by_id_and_no_commit_revalidation".)
     {"name": "prebuilt_file_schema_not_checked", "props": ["C11"], "file": T,
      "find": "        if not actual.equals(expected, check_metadata=False):",
      "repl": "        if False:"},
@@ -172,6 +175,34 @@ MUTANTS = [
      "also": [("                if self.storage.supports_cas:\n                    for attempt in (0, 1):",
                "                current = self.refresh()\n                if self.storage.supports_cas:\n                    for attempt in (0, 1):"),
               ("                if not validated_from_hint:\n                    current = self.refresh()", "                pass")]},
+    # ---- equivalents of fix commits whose textual revert no longer applies to the current code
+    {"name": "frac_float_into_int_accepted", "props": ["C11"], "file": D,                 # e362918
+     "find": "                if isinstance(value, float) and (\n                    value != value or value in (float(\"inf\"), float(\"-inf\")) or value != int(value)\n                ):",
+     "repl": "                if False:"},
+    {"name": "local_exists_swallows_errors", "props": ["C14", "C07"], "file": S,           # da6a982
+     "find": "                return False  # no file can have this name: \"not there\", not a storage failure\n            raise",
+     "repl": "                return False\n            return False"},
+    {"name": "recovery_swallows_listing_error", "props": ["C04"], "file": M,               # b4313ab (+ da6a982, which masks it)
+     "find": "        all_files = self.storage.list_files(self.metadata_path)\n",
+     "repl": "        try:\n            all_files = self.storage.list_files(self.metadata_path)\n        except Exception:\n            return None\n",
+     "also_files": [(S, "                return False  # no file can have this name: \"not there\", not a storage failure\n            raise",
+                     "                return False\n            return False")]},
+    {"name": "lock_body_without_counter", "props": ["C19"], "file": L,                     # 1c6f396 / 4b15b99
+     "find": "        return f\"{self.lock_id}:{self._renewals}\".encode('utf-8')",
+     "repl": "        return self.lock_id.encode('utf-8')"},
+    {"name": "append_files_writes_no_marker", "props": ["C05", "C06"], "file": T,          # 1392b8b
+     "find": "            if not self._has_inflight_marker(data_file.file_path):\n                self._register_inflight(data_file.file_path)",
+     "repl": "            pass"},
+    {"name": "gc_compares_raw_path_spellings", "props": ["C05"], "file": G,                # eb1285e
+     "find": "            relative = posixpath.normpath(relative)",
+     "repl": "            pass"},
+    {"name": "marker_named_by_basename", "props": ["C05", "C06"], "file": T,               # d43d43e
+     "find": "        marker_path = f\"{_INFLIGHT_PATH}/{marker_name}.{uuid.uuid4().hex[:8]}.inflight\"",
+     "repl": "        marker_path = f\"{_INFLIGHT_PATH}/{marker_name}.inflight\""},
+    {"name": "schema_cache_by_id_and_no_commit_revalidation", "props": ["C18"], "file": D,  # ded9070 + 989e126
+     "find": "        cache_key = (\n            iceberg_schema.schema_id,\n            json.dumps(iceberg_schema.fields, sort_keys=True, default=str),\n        )",
+     "repl": "        cache_key = iceberg_schema.schema_id",
+     "also_files": [(T, "                    self._revalidate_written_schemas(base_metadata)\n", "                    pass\n")]},
     {"name": "seq_from_snapshot_count", "props": ["C15", "C01"], "file": T,
      "find": "        sequence_number = base_metadata.last_sequence_number + 1",
      "repl": "        sequence_number = len(base_metadata.snapshots) + 1"},
@@ -179,11 +210,11 @@ MUTANTS = [
 
 REVERTS = [
     ("9ca1d8a", ["C01"]), ("336ed11", ["C04"]), ("d830242", ["C04"]), ("abb63e7", ["C02"]), 
-("dba0733", ["C07"]), ("0c9977b", ["C07"]), ("2a5d64e", ["C07"]), ("b46438b", ["C07"]),
-     ("0ad9135", ["C09"]), ("6e33d4e", ["C10"]), ("c6108cc", ["C11"]), ("e362918", ["C11"]),
-    ("e7f960c", ["C20"]), ("da6a982+b4313ab", ["C04"]), ("4f0c1c6", ["C10"]), ("1c6f396", ["C19"]), 
-    ("fd90d27", ["C04"]), ("1392b8b", ["C05", "C06"]), ("eb1285e", ["C05"]), ("ed11f52", ["C14", "C07"]), ("da6a982", ["C14", "C07"]),
-    ("fc4462d", ["C15"]), ("3125173", ["C11"]), ("bc34c9c", ["C11"]), ("ded9070+989e126", ["C18"]), ("4b15b99", ["C19"]), ("e81c9c4", ["C16"]), ("09d4462", ["C11"]), ("d43d43e", ["C05", "C06"]), ("8acb033", ["C10"]), ("38d48b4", ["C14"]), ("c16fd62", ["C04"]), ("0034e06", ["C04"]), ("470f494", ["C08"]),
+ ("0c9977b", ["C07"]), ("2a5d64e", ["C07"]), ("b46438b", ["C07"]),
+     ("0ad9135", ["C09"]), ("6e33d4e", ["C10"]),  
+    ("e7f960c", ["C20"]),  ("4f0c1c6", ["C10"]),  
+    ("fd90d27", ["C04"]),   ("ed11f52", ["C14", "C07"]), 
+    ("fc4462d", ["C15"]), ("3125173", ["C11"]), ("bc34c9c", ["C11"]),  ("4b15b99", ["C19"]), ("e81c9c4", ["C16"]), ("09d4462", ["C11"]),  ("8acb033", ["C10"]), ("38d48b4", ["C14"]), ("c16fd62", ["C04"]), ("0034e06", ["C04"]), ("470f494", ["C08"]),
 ]
 
 
@@ -198,6 +229,12 @@ def make_copy(name: str) -> str:
 def apply_mutant(d: str, m: dict) -> None:
     p = os.path.join(d, "src", "datashard", m["file"])
     s = open(p).read()
+    for (f2, find2, repl2) in m.get("also_files", []):
+        p2 = os.path.join(d, "src", "datashard", f2)
+        s2 = open(p2).read()
+        if s2.count(find2) != 1:
+            raise RuntimeError(f"mutant {m['name']}: secondary pattern found {s2.count(find2)} times in {f2}")
+        open(p2, "w").write(s2.replace(find2, repl2))
     pairs = [(m["find"], m["repl"])] + list(m.get("also", []))
     for find, repl in pairs:
         if s.count(find) != 1:
